@@ -14,43 +14,43 @@ open SV
 theorem nl_count (b0 b1 b2 b3 b4 b5 b6 b7 : BitVec 8) :
     (Gen.utf8_newline_mask (leWord b0 b1 b2 b3 b4 b5 b6 b7)).cpop =
       (BitVec.ofBool (b0 == 0x0A#8)).setWidth 64 + (BitVec.ofBool (b1 == 0x0A#8)).setWidth 64 + (BitVec.ofBool (b2 == 0x0A#8)).setWidth 64 + (BitVec.ofBool (b3 == 0x0A#8)).setWidth 64 + (BitVec.ofBool (b4 == 0x0A#8)).setWidth 64 + (BitVec.ofBool (b5 == 0x0A#8)).setWidth 64 + (BitVec.ofBool (b6 == 0x0A#8)).setWidth 64 + (BitVec.ofBool (b7 == 0x0A#8)).setWidth 64 := by
-  simp only [Gen.utf8_newline_mask, leWord]; bv_decide
+  simp only [Gen.utf8_newline_mask, leWord]; bv_decide (timeout := 300)
 
 theorem nl_zero_iff (b0 b1 b2 b3 b4 b5 b6 b7 : BitVec 8) :
     (Gen.utf8_newline_mask (leWord b0 b1 b2 b3 b4 b5 b6 b7)) = 0#64 ↔ (b0 ≠ 0x0A#8 ∧ b1 ≠ 0x0A#8 ∧ b2 ≠ 0x0A#8 ∧ b3 ≠ 0x0A#8 ∧ b4 ≠ 0x0A#8 ∧ b5 ≠ 0x0A#8 ∧ b6 ≠ 0x0A#8 ∧ b7 ≠ 0x0A#8) := by
-  simp only [Gen.utf8_newline_mask, leWord]; bv_decide
+  simp only [Gen.utf8_newline_mask, leWord]; bv_decide (timeout := 300)
 
 theorem nl_last_7 (b0 b1 b2 b3 b4 b5 b6 b7 : BitVec 8) (h7 : b7 = 0x0A#8) :
     (Gen.utf8_newline_mask (leWord b0 b1 b2 b3 b4 b5 b6 b7)).clz ≤ 63#64 ∧ (63#64 - (Gen.utf8_newline_mask (leWord b0 b1 b2 b3 b4 b5 b6 b7)).clz) >>> 3 = 7#64 := by
-  simp only [Gen.utf8_newline_mask, leWord]; bv_decide
+  simp only [Gen.utf8_newline_mask, leWord]; bv_decide (timeout := 300)
 
 theorem nl_last_6 (b0 b1 b2 b3 b4 b5 b6 b7 : BitVec 8) (h7 : b7 ≠ 0x0A#8) (h6 : b6 = 0x0A#8) :
     (Gen.utf8_newline_mask (leWord b0 b1 b2 b3 b4 b5 b6 b7)).clz ≤ 63#64 ∧ (63#64 - (Gen.utf8_newline_mask (leWord b0 b1 b2 b3 b4 b5 b6 b7)).clz) >>> 3 = 6#64 := by
-  simp only [Gen.utf8_newline_mask, leWord]; bv_decide
+  simp only [Gen.utf8_newline_mask, leWord]; bv_decide (timeout := 300)
 
 theorem nl_last_5 (b0 b1 b2 b3 b4 b5 b6 b7 : BitVec 8) (h7 : b7 ≠ 0x0A#8) (h6 : b6 ≠ 0x0A#8) (h5 : b5 = 0x0A#8) :
     (Gen.utf8_newline_mask (leWord b0 b1 b2 b3 b4 b5 b6 b7)).clz ≤ 63#64 ∧ (63#64 - (Gen.utf8_newline_mask (leWord b0 b1 b2 b3 b4 b5 b6 b7)).clz) >>> 3 = 5#64 := by
-  simp only [Gen.utf8_newline_mask, leWord]; bv_decide
+  simp only [Gen.utf8_newline_mask, leWord]; bv_decide (timeout := 300)
 
 theorem nl_last_4 (b0 b1 b2 b3 b4 b5 b6 b7 : BitVec 8) (h7 : b7 ≠ 0x0A#8) (h6 : b6 ≠ 0x0A#8) (h5 : b5 ≠ 0x0A#8) (h4 : b4 = 0x0A#8) :
     (Gen.utf8_newline_mask (leWord b0 b1 b2 b3 b4 b5 b6 b7)).clz ≤ 63#64 ∧ (63#64 - (Gen.utf8_newline_mask (leWord b0 b1 b2 b3 b4 b5 b6 b7)).clz) >>> 3 = 4#64 := by
-  simp only [Gen.utf8_newline_mask, leWord]; bv_decide
+  simp only [Gen.utf8_newline_mask, leWord]; bv_decide (timeout := 300)
 
 theorem nl_last_3 (b0 b1 b2 b3 b4 b5 b6 b7 : BitVec 8) (h7 : b7 ≠ 0x0A#8) (h6 : b6 ≠ 0x0A#8) (h5 : b5 ≠ 0x0A#8) (h4 : b4 ≠ 0x0A#8) (h3 : b3 = 0x0A#8) :
     (Gen.utf8_newline_mask (leWord b0 b1 b2 b3 b4 b5 b6 b7)).clz ≤ 63#64 ∧ (63#64 - (Gen.utf8_newline_mask (leWord b0 b1 b2 b3 b4 b5 b6 b7)).clz) >>> 3 = 3#64 := by
-  simp only [Gen.utf8_newline_mask, leWord]; bv_decide
+  simp only [Gen.utf8_newline_mask, leWord]; bv_decide (timeout := 300)
 
 theorem nl_last_2 (b0 b1 b2 b3 b4 b5 b6 b7 : BitVec 8) (h7 : b7 ≠ 0x0A#8) (h6 : b6 ≠ 0x0A#8) (h5 : b5 ≠ 0x0A#8) (h4 : b4 ≠ 0x0A#8) (h3 : b3 ≠ 0x0A#8) (h2 : b2 = 0x0A#8) :
     (Gen.utf8_newline_mask (leWord b0 b1 b2 b3 b4 b5 b6 b7)).clz ≤ 63#64 ∧ (63#64 - (Gen.utf8_newline_mask (leWord b0 b1 b2 b3 b4 b5 b6 b7)).clz) >>> 3 = 2#64 := by
-  simp only [Gen.utf8_newline_mask, leWord]; bv_decide
+  simp only [Gen.utf8_newline_mask, leWord]; bv_decide (timeout := 300)
 
 theorem nl_last_1 (b0 b1 b2 b3 b4 b5 b6 b7 : BitVec 8) (h7 : b7 ≠ 0x0A#8) (h6 : b6 ≠ 0x0A#8) (h5 : b5 ≠ 0x0A#8) (h4 : b4 ≠ 0x0A#8) (h3 : b3 ≠ 0x0A#8) (h2 : b2 ≠ 0x0A#8) (h1 : b1 = 0x0A#8) :
     (Gen.utf8_newline_mask (leWord b0 b1 b2 b3 b4 b5 b6 b7)).clz ≤ 63#64 ∧ (63#64 - (Gen.utf8_newline_mask (leWord b0 b1 b2 b3 b4 b5 b6 b7)).clz) >>> 3 = 1#64 := by
-  simp only [Gen.utf8_newline_mask, leWord]; bv_decide
+  simp only [Gen.utf8_newline_mask, leWord]; bv_decide (timeout := 300)
 
 theorem nl_last_0 (b0 b1 b2 b3 b4 b5 b6 b7 : BitVec 8) (h7 : b7 ≠ 0x0A#8) (h6 : b6 ≠ 0x0A#8) (h5 : b5 ≠ 0x0A#8) (h4 : b4 ≠ 0x0A#8) (h3 : b3 ≠ 0x0A#8) (h2 : b2 ≠ 0x0A#8) (h1 : b1 ≠ 0x0A#8) (h0 : b0 = 0x0A#8) :
     (Gen.utf8_newline_mask (leWord b0 b1 b2 b3 b4 b5 b6 b7)).clz ≤ 63#64 ∧ (63#64 - (Gen.utf8_newline_mask (leWord b0 b1 b2 b3 b4 b5 b6 b7)).clz) >>> 3 = 0#64 := by
-  simp only [Gen.utf8_newline_mask, leWord]; bv_decide
+  simp only [Gen.utf8_newline_mask, leWord]; bv_decide (timeout := 300)
 
 /-! ### the byte loop in closed form -/
 
